@@ -41,7 +41,7 @@ func injectFailures(r *rng.R, s *spec.Spec, e *Env) map[string]string {
 				kinds[t.Label()] = "missing-declared-output"
 			}
 		case 2:
-			t.Checks = append(t.Checks, spec.Check{Marker: "markers/ok_" + t.Name})
+			t.Checks = append(t.Checks, spec.Check{Marker: "markers/ok_" + t.Name, Shape: rng.Pick(r, []string{"", "", "and", "nosete"})})
 			kinds[t.Label()] = "failing-output-check"
 		case 3:
 			t.SleepIf = "markers/slow_" + t.Name
